@@ -94,6 +94,28 @@ def gen_argname_case(rng):
     return {"params": params, "shapes": [sh0, [rng.choice([1, 1, 2, 3, 4])]], "hasret": False, "rettoks": [], "retshape": [], "args": {}}
 
 
+def gen_varkw_case(alpha, rng):
+    """f(**kw: Ann) called with 3-4 keyword arguments whose call order is not the sorted order of their names"""
+    cands = [t for t in alpha["alphabet"] if t and not any(x["base"]["k"] == "sym" for x in t)]
+    toks = rng.choice([t for t in cands if any("*" in x["mods"] for x in t)] if rng.random() < .7 else cands)
+    n = rng.choice([3, 3, 4])
+    names = rng.sample(["k1", "k2", "k3", "k4", "a", "zz"], n)
+    if names == sorted(names):
+        names.reverse()
+    sigma = {"a": rng.randint(1, 3), "b": rng.randint(1, 3), "*v": [rng.randint(1, 3) for _ in range(rng.randint(1, 2))]}
+    shapes = []
+    for _ in range(n):
+        s = c02.instantiate(toks, sigma, rng)
+        r = rng.random()
+        if r < .35 and s:
+            s[rng.randrange(len(s))] = 1              # broadcasting candidates
+        elif r < .5 and s:
+            s[rng.randrange(len(s))] = rng.randint(1, 3)
+        shapes.append(s)
+    return {"params": [{"nm": nm, "toks": toks} for nm in names], "shapes": shapes, "hasret": False, "rettoks": [], "retshape": [],
+            "args": {}, "_varkw": True}
+
+
 def worker(args):
     alpha, seed, n, out_path, id0 = args
     from . import calls
@@ -103,7 +125,14 @@ def worker(args):
         while k < n:
             r = rng.random()
             case = (c02.gen_history_case(alpha, rng) if r < .2 else gen_argref_case(rng) if r < .4 else
-                    gen_argname_case(rng) if r < .5 else c02.gen_case(alpha, rng, maxp=3, symp=.4))
+                    gen_argname_case(rng) if r < .5 else gen_varkw_case(alpha, rng) if r < .6 else
+                    c02.gen_case(alpha, rng, maxp=3, symp=.4))
+            if case.pop("_varkw", False):
+                case["variants"] = calls.run_jax_varkw(case, seed=seed + k)
+                case["id"] = id0 + k
+                k += 1
+                f.write(json.dumps(case, separators=(",", ":")) + "\n")
+                continue
             # the case, a sibling (one shape changed, other array objects reused), and the case again
             prev = None
             fam = c02.sibling_family(case, rng)
